@@ -486,7 +486,7 @@ def run(ctx):
 
     # ---- (2) idiom programs for the model tie and (1) the differential: three driver processes in parallel
     progs = list(IDIOM_CORPUS)
-    nprog = 400 if quick else 4000
+    nprog = 300 if quick else 2000
     while len(progs) < nprog:
         progs.append(gen_program(rng))
     extra = []
@@ -495,7 +495,7 @@ def run(ctx):
         c = rp["replay"]["case"]
         extra.append({"t": c["t"], "variant": c["variant"], "cseed": c["cseed"]})
     nshard = 3 if quick else 6
-    base = {"mode": "auto", "master": ctx.seed, "k": 2 if quick else 12, "skip": sorted(THOROUGH_ONLY) if quick else [],
+    base = {"mode": "auto", "master": ctx.seed, "k": 2 if quick else 6, "skip": sorted(THOROUGH_ONLY) if quick else [],
             "single": sorted(THOROUGH_ONLY), "nshard": nshard}
     payloads = [dict(base, shard=i, extra=extra if i == 0 else [], programs=progs if i == nshard - 1 else None) for i in range(nshard)]
     t0 = _t.time()
@@ -521,13 +521,15 @@ def run(ctx):
         ihist["with_alias_mutation"] += any(t0["ops"] != t1["ops"] or t0["meas"] != t1["meas"] for t0, t1 in zip(p["tapes"], o["tapes"]))
         ihist["with_tapecopy"] += any(c[0] == "tapecopy" for c in p["cmds"])
         ihist["shared_tp_list"] += any(a[4] for a in o["alias"])
-        if any(a[2] or a[3] for a in o["alias"]):
+        if any(a[2] or a[3] for a in o["alias"]) and ihist["viol_shared"] < 4:
+            ihist["viol_shared"] += 1
             ctx.violation("idiom-shared-list:" + json.dumps(p, sort_keys=True), {"program": p, "observed": o},
                           what="two QuantumScript objects share an operations/measurements list object")
         if not idiom_direct_oracle(p, o):
             ctx.violation("idiom-direct:" + json.dumps(p, sort_keys=True), {"program": p, "observed": o},
                           what="copy-then-mutate idiom changed the caller's tape on real QuantumScript objects")
-    for i in bad:
+    ihist["model_disagreements"] = len(bad)
+    for i in bad[:6]:                      # the first few are enough as witnesses (all are counted in the evidence)
         ctx.violation("corr:" + json.dumps(progs[i], sort_keys=True), {"program": progs[i], "implementation": iobs[i]},
                       what="real QuantumScript aliasing behaviour differs from the proved heap model")
 
